@@ -355,6 +355,7 @@ fn main() {
         Some("selftest") => selftest::main(&args),
         Some("lane") => lane(&args),
         Some("ablate") => ablate(&args),
+        Some("primer") => props::c18::primer_main(args.get(2).map(|s| s.as_str()).unwrap_or("none")),
         _ => {
             eprintln!("usage: rxv run|replay|selftest ...");
             2
